@@ -4,13 +4,15 @@
 
 package lexer
 
-//@ ghost tokOK(t Int, v Str) Bool = (t == const("lexer.StringLiteralToken") || t == const("lexer.JSONLiteralToken") || t == const("lexer.QuotedIdentifierToken") ==> len(v) >= 2) && (t == const("lexer.ObjectWildcardToken") ==> len(v) >= 1)
+//@ ghost tokOK(t Int, v Str) Bool = (t == const("lexer.StringLiteralToken") || t == const("lexer.JSONLiteralToken") || t == const("lexer.QuotedIdentifierToken") ==> len(v) >= 2) && (t == const("lexer.ObjectWildcardToken") ==> len(v) >= 1 && v[0] == 46) && aligned(v) && (t == const("lexer.QuotedIdentifierToken") ==> v[0] == 34 && v[len(v) - 1] == 34) && (t == const("lexer.StringLiteralToken") ==> v[0] == 39 && v[len(v) - 1] == 39) && (t == const("lexer.JSONLiteralToken") ==> v[0] == 96 && v[len(v) - 1] == 96)
 
 //@ func Lexer.Next
 //@   tags C04 C16 C09 C03
 //@   assigns l.position, *t
 //@   requires pos: 0 <= l.position && l.position <= len(l.expression)
+//@   requires[C11] bnd: aligned(l.expression) && boundAt(l.expression, l.position)
 //@   ensures pos: 0 <= l.position && l.position <= len(l.expression) && l.expression == old(l.expression)
+//@   ensures[C11] bnd: result == nil ==> boundAt(l.expression, l.position)
 //@   ensures[C09] progress: result == nil && t.Type != const("lexer.EndToken") ==> l.position > old(l.position)
 //@   ensures[C03 C16] delimiters: result == nil ==> tokOK(t.Type, t.Value)
 
@@ -24,14 +26,19 @@ package lexer
 //@   ensures[C16 C04] valid: pos < len(l.expression) && !(result0 == 65533 && result1 == 1) ==> result2 == nil
 //@   ensures[C04] invalid: result0 == 65533 && result1 == 1 ==> result2 != nil
 //@   ensures size: result2 == nil ==> 1 <= result1 && result1 <= 4 && pos + result1 <= len(l.expression)
+//@   ensures[C11] bnd: aligned(l.expression) && boundAt(l.expression, pos) && result2 == nil ==> boundAt(l.expression, pos + result1)
+//@   ensures[C11] ascii: result2 == nil && result0 < 128 ==> result1 == 1 && l.expression[pos] == result0
 
 //@ func Lexer.quotedIdentifier
 //@   tags C16 C04 C09 C03
 //@   assigns l.position, *t
 //@   requires 0 <= start && start < next && next <= len(l.expression)
+//@   requires[C11] bnd: aligned(l.expression) && boundAt(l.expression, start) && boundAt(l.expression, next)
+//@   ensures[C11] bnd: result == nil ==> boundAt(l.expression, l.position) && aligned(t.Value)
 //@   ensures result == nil ==> t.Type == const("lexer.QuotedIdentifierToken") && same(t.Value, l.expression[start:l.position]) && l.position > next && l.position <= len(l.expression) && l.expression[l.position - 1] == '"'
 //@   ensures l.expression == old(l.expression) && (result != nil ==> l.position == old(l.position))
 //@   loop 1
+//@     invariant[C11] bnd: boundAt(l.expression, next)
 //@     invariant start < next && next <= len(l.expression) && next >= next0 && l.position == old(l.position) && l.expression == old(l.expression)
 //@     decreases len(l.expression) - next
 //@     bound len(l.expression)
@@ -40,9 +47,12 @@ package lexer
 //@   tags C16 C04 C09 C03
 //@   assigns l.position, *t
 //@   requires 0 <= start && start < next && next <= len(l.expression)
+//@   requires[C11] bnd: aligned(l.expression) && boundAt(l.expression, start) && boundAt(l.expression, next)
+//@   ensures[C11] bnd: result == nil ==> boundAt(l.expression, l.position) && aligned(t.Value)
 //@   ensures result == nil ==> t.Type == const("lexer.StringLiteralToken") && same(t.Value, l.expression[start:l.position]) && l.position > next && l.position <= len(l.expression) && l.expression[l.position - 1] == '\''
 //@   ensures l.expression == old(l.expression) && (result != nil ==> l.position == old(l.position))
 //@   loop 1
+//@     invariant[C11] bnd: boundAt(l.expression, next)
 //@     invariant start < next && next <= len(l.expression) && next >= next0 && l.position == old(l.position) && l.expression == old(l.expression)
 //@     decreases len(l.expression) - next
 //@     bound len(l.expression)
@@ -51,9 +61,12 @@ package lexer
 //@   tags C16 C04 C09 C03
 //@   assigns l.position, *t
 //@   requires 0 <= start && start < next && next <= len(l.expression)
+//@   requires[C11] bnd: aligned(l.expression) && boundAt(l.expression, start) && boundAt(l.expression, next)
+//@   ensures[C11] bnd: result == nil ==> boundAt(l.expression, l.position) && aligned(t.Value)
 //@   ensures result == nil ==> t.Type == const("lexer.JSONLiteralToken") && same(t.Value, l.expression[start:l.position]) && l.position > next && l.position <= len(l.expression) && l.expression[l.position - 1] == '`'
 //@   ensures l.expression == old(l.expression) && (result != nil ==> l.position == old(l.position))
 //@   loop 1
+//@     invariant[C11] bnd: boundAt(l.expression, next)
 //@     invariant start < next && next <= len(l.expression) && next >= next0 && l.position == old(l.position) && l.expression == old(l.expression)
 //@     decreases len(l.expression) - next
 //@     bound len(l.expression)
@@ -62,9 +75,12 @@ package lexer
 //@   tags C04 C09 C03
 //@   assigns l.position, *t
 //@   requires 0 <= start && start < next && next <= len(l.expression)
+//@   requires[C11] bnd: aligned(l.expression) && boundAt(l.expression, start) && boundAt(l.expression, next)
+//@   ensures[C11] bnd: result == nil ==> boundAt(l.expression, l.position) && aligned(t.Value)
 //@   ensures result == nil && t.Type == const("lexer.IntegerLiteralToken") && same(t.Value, l.expression[start:l.position]) && l.position >= next && l.position <= len(l.expression)
 //@   ensures l.expression == old(l.expression)
 //@   loop 1
+//@     invariant[C11] bnd: boundAt(l.expression, next)
 //@     invariant start < next && next <= len(l.expression) && next >= next0 && l.position == old(l.position) && l.expression == old(l.expression)
 //@     decreases len(l.expression) - next
 //@     bound len(l.expression)
@@ -73,10 +89,13 @@ package lexer
 //@   tags C04 C09 C03 C19
 //@   assigns l.position, *t
 //@   requires 0 <= start && start < next && next <= len(l.expression)
+//@   requires[C11] bnd: aligned(l.expression) && boundAt(l.expression, start) && boundAt(l.expression, next)
+//@   ensures[C11] bnd: result == nil ==> boundAt(l.expression, l.position) && aligned(t.Value)
 //@   ensures result == nil && (t.Type == const("lexer.UnquotedIdentifierToken") || t.Type == const("lexer.InToken") || t.Type == const("lexer.LetToken")) && same(t.Value, l.expression[start:l.position]) && l.position >= next && l.position <= len(l.expression)
 //@   ensures[C04 C19] keywords: (t.Type == const("lexer.InToken") <==> t.Value == "in") && (t.Type == const("lexer.LetToken") <==> t.Value == "let")
 //@   ensures l.expression == old(l.expression)
 //@   loop 1
+//@     invariant[C11] bnd: boundAt(l.expression, next)
 //@     invariant start < next && next <= len(l.expression) && next >= next0 && l.position == old(l.position) && l.expression == old(l.expression)
 //@     decreases len(l.expression) - next
 //@     bound len(l.expression)
@@ -85,10 +104,13 @@ package lexer
 //@   tags C04 C09 C03 C19
 //@   assigns l.position, *t
 //@   requires 0 <= start && start < next && next <= len(l.expression)
+//@   requires[C11] bnd: aligned(l.expression) && boundAt(l.expression, start) && boundAt(l.expression, next)
+//@   ensures[C11] bnd: result == nil ==> boundAt(l.expression, l.position) && aligned(t.Value)
 //@   ensures result == nil && (t.Type == const("lexer.RootToken") || t.Type == const("lexer.VariableToken")) && same(t.Value, l.expression[start:l.position]) && l.position >= next && l.position <= len(l.expression)
 //@   ensures[C19] root: t.Type == const("lexer.RootToken") <==> l.position == next
 //@   ensures l.expression == old(l.expression)
 //@   loop 1
+//@     invariant[C11] bnd: boundAt(l.expression, next)
 //@     invariant start < next && next <= len(l.expression) && next > next0 && l.position == old(l.position) && l.expression == old(l.expression)
 //@     decreases len(l.expression) - next
 //@     bound len(l.expression)
@@ -99,7 +121,8 @@ package lexer
 //@ func Lexer.Next
 //@   loop 1
 //@     invariant 0 <= l.position && l.position < len(l.expression) && l.position >= old(l.position) && l.expression == old(l.expression)
-//@     invariant[C04] whitespace: forall k Int :: old(l.position) <= k && k < l.position ==> wsByte(l.expression[k])
+//@     invariant[C11] bnd: boundAt(l.expression, l.position)
+//@     invariant[C04] whitespace: forall k Int :: {byteOf(l.expression, k)} old(l.position) <= k && k < l.position ==> wsByte(byteOf(l.expression, k))
 //@     decreases len(l.expression) - l.position
 //@     bound len(l.expression)
 
